@@ -6,6 +6,7 @@ import (
 	"bytes"
 	"crypto/sha256"
 	"encoding/hex"
+	"math/big"
 	"os"
 	"path/filepath"
 	"runtime/coverage"
@@ -15,7 +16,50 @@ func buildInfo() string { return "cover " + tagsInfo() }
 
 // bracket runs f between ClearCounters and WriteCounters and returns a hash of
 // the counters of exactly that call.
+var calibrated bool
+
+//go:noinline
+func emptyProbe() int { return len(os.Args) }
+
+//go:noinline
+func bigProbe() int {
+	a := new(big.Int).SetBytes([]byte{3, 1, 4, 1, 5, 9, 2, 6, 5, 3, 5, 8, 9, 7, 9, 3, 2, 3})
+	m := new(big.Int).Lsh(big.NewInt(1), 127)
+	m.Sub(m, big.NewInt(1))
+	a.Exp(a, big.NewInt(65537), m)
+	a.ModInverse(a, m)
+	return len(a.FillBytes(make([]byte, 16))) + a.BitLen()
+}
+
+// calibrateExt finds the coverage package ids of the instrumented standard
+// packages: those that count when only math/big code runs, minus those that
+// count for an empty probe (this main package).
+func calibrateExt() {
+	calibrated = true
+	probe := func(f func() int) map[uint32]bool {
+		if coverage.ClearCounters() != nil {
+			return nil
+		}
+		sink += byte(f())
+		var buf bytes.Buffer
+		if coverage.WriteCounters(&buf) != nil {
+			return nil
+		}
+		return counterPackages(buf.Bytes())
+	}
+	base, withBig := probe(emptyProbe), probe(bigProbe)
+	extPk = map[uint32]bool{}
+	for pk := range withBig {
+		if !base[pk] {
+			extPk[pk] = true
+		}
+	}
+}
+
 func bracket(f func(), dumpDir string) string {
+	if !calibrated {
+		calibrateExt()
+	}
 	if err := coverage.ClearCounters(); err != nil {
 		return "coverr:" + hex.EncodeToString([]byte(err.Error()))
 	}
